@@ -7,8 +7,11 @@ import (
 	"math"
 	"math/big"
 	"math/rand/v2"
+	"runtime"
 	"sync"
+	"sync/atomic"
 	"testing"
+	"time"
 
 	"github.com/platinummonkey/go-concurrency-limits/core"
 	"github.com/platinummonkey/go-concurrency-limits/limit"
@@ -235,6 +238,87 @@ func concurrentDrops(idx int64, r *rand.Rand) {
 	rt.Distinct(fmt.Sprintf("conc|%d|%g|%d", l0, ratio, n))
 }
 
+
+// concurrentDropsAdaptive: several goroutines deliver only drop samples to one Vegas / Gradient limit at
+// the same time.  The user-supplied queue allowance function (Gradient) is a collaborator the harness may
+// make slow: it yields.  Whatever the interleaving, the values reported to a change listener (called by the
+// algorithm in application order, under its own lock) never rise, and the run ends at or below where it started;
+// enough drops reach the floor.
+func concurrentDropsAdaptive(idx int64, r *rand.Rand) {
+	kind := []string{"vegas", "gradient"}[r.IntN(2)] // Gradient2 does not look at the drop flag (outside this property)
+	spec := limgen.Gen(r, kind, limgen.Opts{Bounded: true})
+	if kind != "vegas" {
+		spec.QueueKind, spec.QueueArg = "sqrt", 1+r.IntN(6)
+		spec.Max = 400 + r.IntN(2000)
+		spec.Initial = spec.Max - r.IntN(100)
+		if spec.Min > 20 {
+			spec.Min = 1 + r.IntN(20)
+		}
+	}
+	if kind == "gradient" {
+		spec.ProbeInt = limit.ProbeDisabled
+	}
+	var l core.Limit
+	q := spec.Queue()
+	var qcalls atomic.Int64
+	slowQ := func(v int) int {
+		out := q(v)
+		if qcalls.Add(1)%3 == 0 {
+			time.Sleep(20 * time.Microsecond)
+		} else {
+			runtime.Gosched()
+		}
+		return out
+	}
+	switch kind {
+	case "gradient":
+		l = limit.NewGradientLimitWithRegistry("c06", spec.Initial, spec.Min, spec.Max, spec.Smoothing, slowQ, spec.RTTTol, spec.ProbeInt, nil, nil)
+	default:
+		l = spec.New(nil, "c06")
+	}
+	// establish a baseline sequentially (no drops), then restore nothing: the estimate after the prefix is the start
+	for i := 0; i < 3; i++ {
+		l.OnSample(0, 1000, l.EstimatedLimit(), false)
+	}
+	e0 := l.EstimatedLimit()
+	var mu sync.Mutex
+	var seen []int
+	l.NotifyOnChange(func(v int) { mu.Lock(); seen = append(seen, v); mu.Unlock() })
+	n := 2 + r.IntN(7)
+	per := 4 + r.IntN(40)
+	bar := lin.NewBarrier(n)
+	var wg sync.WaitGroup
+	for g := 0; g < n; g++ {
+		wg.Add(1)
+		go func(g int) {
+			defer wg.Done()
+			bar.Wait()
+			for i := 0; i < per; i++ {
+				l.OnSample(0, int64(2000+g*10+i), e0, true)
+			}
+		}(g)
+	}
+	wg.Wait()
+	rt.Count("concurrent_drop_rounds/"+kind, 1)
+	rt.Count("concurrent_drop_samples", int64(n*per))
+	cfg := rt.J{"spec": spec, "goroutines": n, "drops_each": per, "start": e0}
+	prev := e0
+	for i, v := range seen {
+		if v > prev {
+			rt.Violation("C06/"+kind+"/drop-raised-estimate/concurrent", idx, rt.J{"config": cfg, "notified_head": seen[:min(len(seen), i+2)], "position": i})
+			return
+		}
+		prev = v
+	}
+	if got := l.EstimatedLimit(); got > prev {
+		rt.Violation("C06/"+kind+"/drop-raised-estimate/concurrent", idx, rt.J{"config": cfg, "final": got, "last_notified": prev})
+		return
+	}
+	if len(seen) > 1 {
+		rt.Distinct(fmt.Sprintf("concA|%+v|%d|%d", spec, n, per))
+	}
+}
+
 func TestCheck(t *testing.T) {
 	if limgen.LargeTables() {
 		rt.Count("shards_started_with_enlarged_lookup_tables", 1)
@@ -243,6 +327,8 @@ func TestCheck(t *testing.T) {
 		r := rt.CaseRand(6, idx)
 		rt.Case()
 		switch {
+		case idx%20 == 19:
+			concurrentDropsAdaptive(idx, r)
 		case idx%10 == 9:
 			concurrentDrops(idx, r)
 		case idx%2 == 0:
